@@ -1,8 +1,15 @@
 import ObiVerif.Model.Command
 import ObiVerif.Driver.Util
+import ObiVerif.Driver.C06
+import ObiVerif.Driver.C13
 /-! line protocol for C05:
 `run|race <scenario> seed= nrec= cpu= batch= gmp= rep= [in=] [aff=] | <kind> <data of record 0 alone> … | <kind> …`
-one section per output stream of the command; the result is `ok` followed by one token per stream. -/
+one section per output stream of the command; the result is `ok` followed by one token per stream.
+
+Group-by commands (third pass): the section holds the INPUT records and the model of the command itself is run —
+`| uniq <mem|disk> c= w= b= ns= na= cats= stats= dm=* <rec>…` is a case line of `Driver/C06.lean` (obiuniq: `Uniq.uniqCRC`,
+the output as a sorted multiset of records), `| clean c <w> <d> <p> <q> <head> <item>…` one of `Driver/C13.lean`
+(obiclean: `cleanDataset` + `cliOutput`, the records written in output order); the tokens of their result are joined by `;`. -/
 namespace ObiVerif.Driver.C05
 open ObiVerif.Command ObiVerif.Iter ObiVerif.Writer ObiVerif.Driver
 
@@ -122,6 +129,8 @@ def run (line : String) : String :=
   | _ :: sections =>
     if sections = ["opaque"] then "ok" else
     let outs := sections.map fun sec => match words sec with
+      | "uniq" :: _ => some ((ObiVerif.Driver.C06.run sec).replace " " ";")
+      | "clean" :: rest => some ((ObiVerif.Driver.C13.run (" ".intercalate rest)).replace " " ";")
       | kind :: toks => stream kind toks
       | [] => none
     if outs.any Option.isNone then "bad-single"
